@@ -7,9 +7,12 @@ import (
 	"fmt"
 	"net/netip"
 	"os"
+	"os/exec"
 	"sort"
 	"strconv"
 	"strings"
+
+	"github.com/IrineSistiana/mosdns/v5/pkg/pool"
 	"testing"
 	"time"
 
@@ -96,13 +99,28 @@ func c18run(c c18cfg) (r c18result) {
 	switch c.Via {
 	case "socks5":
 		opt.Socks5 = c18socksAddr
-	case "bootstrap", "bootstrap-referral":
+	case "bootstrap", "bootstrap-referral", "bootstrap-two":
 		opt.Bootstrap = c18bootAddr
 	}
-	if c.Via == "bootstrap-referral" && (exp.MustReject != "" || c18kind(exp.Host) != "name") {
+	if (c.Via == "bootstrap-referral" || c.Via == "bootstrap-two") && (exp.MustReject != "" || c18kind(exp.Host) != "name") {
 		// the bootstrap resolver is only consulted for host names
 		r.Class = "not-applicable"
 		return r
+	}
+	if c.Via == "bootstrap-two" {
+		// another upstream with another host name uses the same bootstrap server first (the server
+		// sends every reply twice, as a network may); what it learns is its own business
+		c0 := c
+		c0.Host, c0.Dial = c18otherName, ""
+		if u0, err0 := NewUpstream(c0.addr(), Opt{TLSConfig: &tls.Config{InsecureSkipVerify: true}, Bootstrap: c18bootAddr}); err0 == nil {
+			ctx0, cancel0 := context.WithTimeout(context.Background(), c18guard)
+			if resp0, _ := u0.ExchangeContext(ctx0, c18query); resp0 != nil {
+				pool.ReleaseBuf(resp0)
+			}
+			cancel0()
+			u0.Close()
+		}
+		s.resetObservations()
 	}
 	u, err = NewUpstream(r.Addr, opt)
 	if err != nil {
@@ -200,15 +218,15 @@ func c18judge(r *c18result, resolved map[string]bool) {
 			// hop to the configured proxy; the CONNECT target is what counts
 		case op.Kind == "socks5-connect" && r.Cfg.Via == "socks5":
 			checkDest("SOCKS5 CONNECT", op.Addr)
-		case op.Kind == "bootstrap-dial" && (r.Cfg.Via == "bootstrap" || r.Cfg.Via == "bootstrap-referral"):
+		case op.Kind == "bootstrap-dial" && strings.HasPrefix(r.Cfg.Via, "bootstrap"):
 			if op.Addr != c18bootAddr+":53" {
 				bad("unexpected-op", "bootstrap resolver contacted at %q, configured %q", op.Addr, c18bootAddr)
 			}
-		case op.Kind == "bootstrap-query" && (r.Cfg.Via == "bootstrap" || r.Cfg.Via == "bootstrap-referral"):
+		case op.Kind == "bootstrap-query" && strings.HasPrefix(r.Cfg.Via, "bootstrap"):
 			// the name handed to the bootstrap resolver must be the one the user wrote
 			if !strings.EqualFold(strings.TrimSuffix(op.Addr, "."), strings.TrimSuffix(exp.Host, ".")) {
 				bad("dial-host", "bootstrap resolver asked for %q but the user wrote %q (dial_addr %q): expected name %q", op.Addr, r.Addr, r.Cfg.Dial, exp.Host)
-			} else if r.Cfg.Via == "bootstrap" {
+			} else if r.Cfg.Via == "bootstrap" || r.Cfg.Via == "bootstrap-two" {
 				bootHost = true
 			}
 		case op.Kind == "dial" && !quicLike:
@@ -409,7 +427,7 @@ func c18spaceFor(tier string) c18space {
 		ports:   []string{"", "53", "5353", "65535", "65536", "65589"},
 		dials:   []string{"", "192.0.2.7", "192.0.2.7:8853", "2001:db8::7", "[2001:db8::7]:8853", "dial.example.net", "dial.example.net:8853"},
 		paths:   []string{"", "/dns-query"},
-		vias:    []string{"", "socks5", "bootstrap", "refuse-first", "redirect-first", "bootstrap-referral"},
+		vias:    []string{"", "socks5", "bootstrap-two", "bootstrap", "refuse-first", "redirect-first", "bootstrap-referral"},
 	}
 	if tier == "thorough" {
 		sp.schemes = append(sp.schemes, "ftp")
@@ -447,6 +465,30 @@ func c18sigs(r c18result) []string {
 	}
 	sort.Strings(out)
 	return out
+}
+
+// c18inFreshProcess runs one configuration alone in a child process and returns its
+// violation signatures (sorted, blank separated; "" when none).
+func c18inFreshProcess(c c18cfg) string {
+	f, err := os.CreateTemp("", "c18cfg*.json")
+	if err != nil {
+		return "error: " + err.Error()
+	}
+	defer os.Remove(f.Name())
+	b, _ := json.Marshal(map[string]any{"property": "C18", "input": c})
+	f.Write(b)
+	f.Close()
+	cmd := exec.Command(os.Args[0], "-test.run", "^TestVerifC18$", "-test.timeout", "2m")
+	cmd.Env = append(os.Environ(), "VERIF_REPLAY="+f.Name(), "VERIF_OUT=")
+	out, _ := cmd.CombinedOutput()
+	var sigs []string
+	for _, l := range strings.Split(string(out), "\n") {
+		if i := strings.Index(l, "REPLAY-VIOLATION property=C18 sig="); i >= 0 {
+			sigs = append(sigs, strings.TrimSpace(l[i+len("REPLAY-VIOLATION property=C18 sig="):]))
+		}
+	}
+	sort.Strings(sigs)
+	return strings.Join(sigs, " ")
 }
 
 func TestVerifC18(t *testing.T) {
@@ -536,7 +578,20 @@ func TestVerifC18(t *testing.T) {
 				}
 			}
 			if res.Infra != "" {
-				break
+				// the code under test may keep state across upstreams of one process: what counts then is
+				// the verdict of this configuration alone in a fresh process, three times the same
+				n := 0
+				for k := 0; k < 3; k++ {
+					if c18inFreshProcess(c) == want {
+						n++
+					}
+				}
+				if n == 3 {
+					res.Notes = append(res.Notes, res.Infra+"; confirmed three times in a fresh process")
+					res.Infra = ""
+				} else {
+					break
+				}
 			}
 			for _, v := range r.Viol {
 				b, _ := json.Marshal(r)
